@@ -48,7 +48,7 @@ func readPacket(r io.Reader) (packetType, byte, []byte, error) {
 
 func (c *BaseClient) serve() error {
 	r := c.Transport
-	subBuffer := make(map[uint16]*Message)
+	subBuffer := c.inboundMessages()
 	for {
 		pktType, pktFlag, contents, err := readPacket(r)
 		if err != nil {
@@ -98,7 +98,7 @@ func (c *BaseClient) serve() error {
 				if err := c.write(pktPubRec); err != nil {
 					return wrapError(err, "sending PUBREC")
 				}
-				subBuffer[publish.Message.ID] = publish.Message
+				subBuffer.store(publish.Message.ID, publish.Message)
 			}
 		case packetPubAck:
 			pubAck, err := (&pktPubAck{}).Parse(pktFlag, contents)
@@ -127,7 +127,7 @@ func (c *BaseClient) serve() error {
 			if err != nil {
 				return err
 			}
-			if msg, ok := subBuffer[pubRel.ID]; ok {
+			if msg, ok := subBuffer.release(pubRel.ID); ok {
 				// Ownership of the message is now transferred to the receiver.
 				c.mu.RLock()
 				handler := c.handler
@@ -135,7 +135,6 @@ func (c *BaseClient) serve() error {
 				if handler != nil {
 					handler.Serve(msg)
 				}
-				delete(subBuffer, pubRel.ID)
 
 				pktPubComp := (&pktPubComp{ID: pubRel.ID}).Pack()
 				if err := c.write(pktPubComp); err != nil {
